@@ -46,6 +46,32 @@ def handlePsmId (j : Json) : R Json := do
   | .ok p => pure (obj [("raw", .str p.raw), ("scan", ofInt p.scan), ("modseq", .str p.modSeq)])
   | .error e => pure (ofErr e)
 
+/-- `{"op":"prosit_key","psmid":s,"peptide":s,"filename":s}` → `{"raw":…, "scan":n, "modseq":…}` or `{"err": enum}`
+    (`parse_prosit_psmid_and_peptide` on `peptide[2:-2]`) -/
+def handlePrositKey (j : Json) : R Json := do
+  match C15.prositKey (← jstr (← jget j "psmid")) (← jstr (← jget j "peptide")) (← jstr (← jget j "filename")) with
+  | .ok (raw, scan, seq) => pure (obj [("raw", .str raw), ("scan", ofInt scan), ("modseq", .str seq)])
+  | .error e => pure (ofErr e)
+
+/-- `{"op":"results_dict","input_type":"andromeda"|"prosit"|…,"results_raw":[[[field…]…]…]}` →
+    `{"dict":[[raw,[[scan,modseq,score,pep]…]]…],"fixed":k}` or `{"err": enum}`: what
+    `get_percolator_results(files, input_type)` returns — the dictionary in insertion order and the
+    fixed-modification table of the LAST file as an index into `FIXED_MODS_DICTS` -/
+def handleResultsDict (j : Json) : R Json := do
+  let prosit := (← jstr (← jget j "input_type")) == "prosit"
+  let raw ← jlist (jlist jstrs) (← jget j "results_raw")
+  let fixed : Except String Nat := match raw.getLast? with
+    | none => .ok 0
+    | some f => C15.fixedModsOf prosit f
+  match C15.buildResultsOf prosit raw, fixed with
+  | .ok res, .ok k =>
+    let inner (l : C15.Inner) : Json := ofList (fun (e : C15.Key × C15.Val) =>
+      Json.arr #[ofInt e.1.1, .str e.1.2, .str e.2.1, .str e.2.2]) l
+    pure (obj [("dict", ofList (fun (e : String × C15.Inner) => Json.arr #[.str e.1, inner e.2]) res), ("fixed", ofInt (k : Int))])
+  | .error e, _ => pure (ofErr e)
+  | _, .error e => pure (ofErr e)
+
 /-- protocol handlers of property C15: (op name, handler) -/
-def handlersC15 : List (String × (Json → R Json)) := [("merge", handleMerge), ("merge_text", handleMergeText), ("psmid", handlePsmId)]
+def handlersC15 : List (String × (Json → R Json)) := [("merge", handleMerge), ("merge_text", handleMergeText), ("psmid", handlePsmId),
+   ("prosit_key", handlePrositKey), ("results_dict", handleResultsDict)]
 end PgFdr.Driver
